@@ -239,7 +239,8 @@ CHECKS.update(
         "size validation raises the documented error iff the documented rule says so, with nothing written (aligned and exact padding). "
         "Part kitty_clearing: a two-frame animation through the real kitty draw path (draw, _display_animated, _clear_frame, clear, "
         "_render_image) for four terminal versions around the 0.25.0 boundary; the terminal model decides which placements survive the "
-        "delete commands: exactly the last frame's.",
+        "delete commands: exactly the last frame's. Part iterm2_anim: the real iterm2 animated draw (WHOLE) on iterm2 / wezterm / konsole "
+        "with padding on the terminal model.",
         note="Trusted: terminal model, z3, engine. Frames are abstract glyph boxes (C01 gives the box contract for the real styles); "
         "frame count <= 3, loops <= 2, height <= 3, vertical padding <= 3 (enumerated); cursor starts at column 0.",
         design="3 C06",
@@ -270,7 +271,8 @@ CHECKS.update(
         "lock owner/count) with one scheduler-choice variable per step; K covers every complete interleaving of the scenario. Queries: "
         "no reachable state has two agents inside synchronized bodies; no reachable state is a deadlock. Which of the documented entry "
         "points (query_terminal, read_tty, write_tty, UrwidImageScreen.draw_screen/flush/get_available_raw_input/write) are wrapped is read "
-        "from the source; each runs against a synchronized query in its own scenario. A sat trace is replayed on the real "
+        "from the source; each runs against a synchronized query in its own scenario. The module-level discovery block (which installs the "
+        "Process hooks) is executed on a copy of the module for every way a terminal can be found. A sat trace is replayed on the real "
         "wrappers with real threads and instrumented locks under a controller enforcing the schedule.",
         note="Trusted: the environment model of threading/multiprocessing locks and process start (stated in the evidence), the ast "
         "skeleton extractor (fails loudly on unknown shapes), z3. Agents and steps bounded per scenario; real OS scheduling and "
